@@ -38,6 +38,42 @@ CHECKS = {
   "note": "Trusted: byte-order ranks of label names/values computed by the harness; raw result order is logged unmodified.",
   "technique": "trace validation by TLC of recorded results against the ResultWF clauses of QueryTrace.tla",
  },
+ "C08": {
+  "text": "Fallback.tla (creation outcome = function of expression and fallback switch; per-path counters) model-checked; the complete vocabulary of the pinned parser (emitted at check time) in every type-correct position x instant/range is created with fallback on and off, executed and compared with the reference engine; TLC validates F1-F4 of FallbackTrace.tla.",
+  "design_ref": "DESIGN.md §6 C08",
+  "note": "Trusted: path = dynamic type of the returned query, counter read through Opts.Reg, Prometheus as oracle, comparator.",
+  "technique": "TLC-enumerated vocabulary scenarios replayed into the engine + trace validation by TLC (FallbackTrace) + model checking of Fallback.tla",
+ },
+ "C09": {
+  "text": "Optimizer.tla transcribes MergeSelects (heap, subset test, filter derivation, in-engine filter) and PropagateMatchers; TLC checks exhaustively over all ordered selector pairs of the matcher alphabet and the all-label-presence dataset that rewritten selection = original selection; the pairs are replayed in 10 positions under 8 optimizer sets; TLC validates SessionTrace.tla (result independent of the optimizer set).",
+  "design_ref": "DESIGN.md §6 C09",
+  "note": "Trusted: comparator classes; the model is a transcription (drift shows as replay disagreement, never as a verdict by itself).",
+  "technique": "exhaustive TLC model checking of Optimizer.tla + replay of the enumerated pairs under all optimizer sets + trace validation by TLC (SessionTrace)",
+ },
+ "C10": {
+  "text": "Distribute.tla transcribes the optimizer's bottom-up rewrite over PromQLRef; TLC checks for every assignment of the series to the engines and a 21-plan basket that the rewritten plan denotes the central result; triples replayed through NewDistributedEngine over NewLocalEngine partitions against one engine over the union, plus general/random scenarios under random partitions; TLC validates SessionTrace.tla.",
+  "design_ref": "DESIGN.md §6 C10",
+  "note": "Trusted: local queryable = union (fragments left local are not misreported); comparator classes.",
+  "technique": "exhaustive TLC model checking of Distribute.tla + replay through the distributed engine + trace validation by TLC (SessionTrace)",
+ },
+ "C11": {
+  "text": "Shards.tla (slices partition the series; re-based IDs are an order-preserving bijection) checked exhaustively for n <= 40, N <= 8; scenarios with 0..40 series x 24-query basket (+ general and random ones) executed under GOMAXPROCS 1..16, storage permutations, decoy series, seeded yields in storage callbacks and at the engine's scheduling points, repetitions; TLC validates SessionTrace.tla.",
+  "design_ref": "DESIGN.md §6 C11",
+  "note": "Trusted: comparator classes absorb summation order; scheduling perturbation is seeded, not exhaustive.",
+  "technique": "TLC model checking of Shards.tla + replay under configuration variations + trace validation by TLC (SessionTrace)",
+ },
+ "C16": {
+  "text": "Hints.tla derives the select hints path-based (reference) and top-down (engine) and TLC checks equality and sufficiency for every plan of the alphabet; the plans and general/random scenarios are replayed: recorded select sets of engine (no optimizers) and reference must be equal, and results with the storage pruned to the hinted ranges must equal unpruned results for optimizer sets none/default/all; TLC validates SessionTrace.tla.",
+  "design_ref": "DESIGN.md §6 C16",
+  "note": "Trusted: the recording storage; grouping labels compared as a set; querier [mint,maxt] not compared; failing queries excluded from the equality half.",
+  "technique": "TLC model checking of Hints.tla + replay with recording / pruning storage + trace validation by TLC (SessionTrace)",
+ },
+ "C20": {
+  "text": "TLC simulation of Session.tla produces histories (12/30/50 operations: executions of 14 queries incl. failing, fallback, cancelled; appends of samples/series/markers/gaps; closes) replayed on one engine and one growing storage; after every operation all earlier results are compared with their deep snapshots and each execution with a fresh engine; TLC validates SessionTrace.tla (memo per data version; ReturnedResultsImmutable).",
+  "design_ref": "DESIGN.md §6 C20",
+  "note": "Trusted: deep snapshots taken by the harness at return time; random walks, not exhaustive.",
+  "technique": "TLC-simulated histories of Session.tla replayed into one engine instance + trace validation by TLC (SessionTrace)",
+ },
  "C02": {
   "text": "Exhaustive small-scope enumeration by TLC of sample layouts x lookback x per-query lookback x offset x @ x step x window (SelectionLaw model-checked on every enumerated scenario); boundary scenarios replayed through the real engine and Prometheus; each result validated by TLC against PromQLRef's denotation and the reference result.",
   "design_ref": "DESIGN.md §6 C02",
